@@ -146,6 +146,9 @@ def run(project, chk):
                 if not cands and isinstance(par.func, ast.Name):
                     # a function-valued local (`strategy = _strategy_strict ... strategy(...)`): every function it can hold
                     vals = [a2.value for a2 in own_nodes(f.node) if isinstance(a2, ast.Assign) and len(a2.targets) == 1 and isinstance(a2.targets[0], ast.Name) and a2.targets[0].id == par.func.id]
+                    def leaves(v):
+                        return leaves(v.body) + leaves(v.orelse) if isinstance(v, ast.IfExp) else [v]
+                    vals = [x for v in vals for x in leaves(v)]
                     res = [sc.resolve(v) for v in vals]
                     if vals and all(r in project.funcs for r in res):
                         cands = res
